@@ -33,6 +33,11 @@ type verifBehaviour struct {
 	Steps []map[string]any `json:"steps"`
 }
 
+// Extension points for per-property harness files (zz_verif_cNN_*.go register from init()):
+// extra abstract actions, and extra fields added to every recorded step / snapshot.
+var verifExtraActions = map[string]func(r *verifRunner, a map[string]any) (string, error){}
+var verifExtraRecord = []func(r *verifRunner, rec map[string]any){}
+
 type verifRunner struct {
 	afterCrash map[string]bool // topic -> a crash happened since the last accepted publish
 	w   *verifWorld
@@ -392,6 +397,9 @@ func (r *verifRunner) step(a map[string]any) (string, error) {
 		return "", nil
 	case "Nop":
 		return "", nil
+	}
+	if f, ok := verifExtraActions[act]; ok {
+		return f(r, a)
 	}
 	return "", fmt.Errorf("unknown action %q", act)
 }
@@ -839,6 +847,9 @@ func (r *verifRunner) record(i int, a map[string]any, id string, stepErr error) 
 	if reply == nil {
 		rec["reply"] = map[string]any{"k": "none", "code": 0}
 	}
+	for _, f := range verifExtraRecord {
+		f(r, rec)
+	}
 	if stepErr != nil {
 		rec["err"] = stepErr.Error()
 	}
@@ -912,6 +923,10 @@ func TestVerifReplay(t *testing.T) {
 		if err := verifRunBehaviour(t, &b, enc); err != nil {
 			infra++
 			t.Logf("INFRA %v", err)
+			if infra >= 8 {
+				t.Logf("too many behaviours with infrastructure errors; aborting the replay early")
+				break
+			}
 			if strings.Contains(err.Error(), "PANIC") {
 				t.Logf("server panic recorded for behaviour %s", b.Id)
 			}
